@@ -58,6 +58,7 @@ func (v *FnVC) exec(fr *frame, st *State, ins ssa.Instruction) {
 			panic(unsupported("IndexAddr on %T", xv))
 		}
 		v.safe(fr, "index", ins, And(Le(tZero, idx), Lt(idx, ln)))
+		v.noteIndex(idx)
 		abs := idx
 		if off.S != "0" {
 			abs = Add(off, idx)
